@@ -31,10 +31,20 @@ def run(tier: str, seed: int) -> int:
     )
     cfgs = l1_err.configs(tier, seed)
     traces, obs = [], []
+    kept = []
     for c in cfgs:
-        tr, eps = l1_err.run_config(c)
+        try:
+            tr, eps = l1_err.run_config(c)
+        except Exception as e:  # the real estimator / solver raised on a legal configuration
+            label = f"{c['kind']}:{'rms_then_scale' if c['norm'] else 'scale_then_rms'}:relin={int(c['relin'])}:perunit={int(c['perunit'])}"
+            rep.traces += 1
+            rep.violation(f"impl:errnorm:{label}:exception", f"{c['solver']}/{c['strategy']} resorder={c['resorder']} didx={c['didx']}: {type(e).__name__}: {str(e)[:200]}",
+                          {"config": {k: str(x) for k, x in c.items()}})
+            continue
+        kept.append(c)
         traces.append(tr)
         obs.append(eps)
+    cfgs = kept
     chunks = [list(range(i, min(i + 10, len(traces)))) for i in range(0, len(traces), 10)]
     dropped = 0
     with cf.ThreadPoolExecutor(max_workers=8) as ex:
@@ -94,8 +104,3 @@ def _invariance(rep, tier):
             for k in (-4, 6):
                 if abs(vals[k] - vals[0]) > 1e-9 * abs(vals[0]):
                     rep.violation(f"impl:errnorm:{kind}:base-scale-invariance:{ssm_name}", f"{prob}/{ssm_name}/{ts}: error power {vals[k]} for c=2^{k} vs {vals[0]}", {})
-
-
-def replay(rep_obj) -> int:
-    print(rep_obj.get("what"))
-    return 1
